@@ -57,14 +57,26 @@ CORR = {"receiver_plus_one": corrupt_receiver, "delivered_other_token": corrupt_
         "pair_credit_minus_one": corrupt_pair_credit}
 
 
+def cell_walk(world, gen_):
+    """the whole swap cross product on one funded pair (preferring cw20/cw20 and native pairs alternately)"""
+    funded = [p for p in world.pairs if p.supply(world.ledger) > 0 and min(p.reserves(world.ledger)) > 10]
+    if not funded:
+        return
+    p = gen_.rng.choice(funded)
+    for c in gen_.walk_swap_cells(p):
+        yield c
+
+
 def run_shard(acc, prop, tier, seed, shard, nshards, **kw):
-    _w.shard(acc, PROP, tier, seed, shard, nshards, factory, WEIGHTS, (12, (120, 220)), (500, (120, 300)), CORR)
+    _w.shard(acc, PROP, tier, seed, shard, nshards, factory, WEIGHTS, (12, (120, 220)), (500, (120, 300)), CORR,
+             post_hook=cell_walk, post_every=(3, 2))
 
 
 def floors(acc, tier):
     msgs = _w.canary_floor(acc, CORR)
     _w.need(acc, msgs, "swaps_succeeded_wellformed", 3000)
     _w.need(acc, msgs, "cells_attempted", 10000)
+    _w.need(acc, msgs, "worlds_with_exhaustive_walk", 32)
     # every pair kind must have seen both entries and malformed cells
     for pk in ("nn", "nt", "tn", "tt"):
         n_cells = len(set(k.split("|")[1] for k in acc.classes if k.startswith(pk + "|") and "wellformed" not in k))
@@ -79,7 +91,9 @@ RULE = ("swap attempts on all pair orientations after seeded prior histories: we
         "the malformed cross product (asset delivered in {named, other pair token, foreign token, rogue token, nothing} x "
         "asset named in {asset0, asset1, foreign, rogue} x amount named in {=,<,>,0} x funds in {exact, less, more, absent, "
         "extra coin, other coin only} x entry in {Swap, hook}). Class = (pair orientation, cell, outcome); "
-        "distinct_nontrivial counts distinct classes. On every success the full settlement equations are checked on the ledger.")
+        "distinct_nontrivial counts distinct classes. On every success the full settlement equations are checked on the ledger. "
+        "In every third world (quick; every second in thorough) the complete cross product is additionally ENUMERATED on one funded pair in the "
+        "state the history ended in (worlds_with_exhaustive_walk).")
 
 
 def main(tier, seed):
